@@ -70,3 +70,19 @@ Theorem C19_par1_sizes : forall md5 ix st s st', p1_load md5 ix st = (Ok s, st')
                 (58 * length (v_entries (s_vol s)) + 96 <= length b)%nat.
 Proof. exact p1_load_sizes. Qed.
 Print Assumptions C19_par1_sizes.
+
+(* PAR1 Repair writes only hash-verified content and lists what it wrote: the state after is the state before with a list
+   of writes applied, each to the path of a saved entry with a bare name, carrying that entry's recorded MD5, 16k-MD5 and
+   length; the repaired list is exactly the list of written paths (every archive state) *)
+Theorem C19_par1_repair_writes : forall md5 ix dbl fs r rp st',
+  Par1.par1_repair md5 ix dbl (io_init fs []) = ((r, rp), st') ->
+  (io_fs st' = fs /\ rp = []) \/
+  exists s st1 ws,
+    Par1.p1_load md5 ix (io_init fs []) = (Ok s, st1) /\
+    io_fs st' = apply_writes ws fs /\ rp = map fst ws /\
+    Forall (fun w => exists e, In e (Par1.s_saved s) /\ base (Par1.e_name e) = Par1.e_name e /\
+                       fst w = join2 (dir ix) (Par1.e_name e) /\
+                       md5 (snd w) = Par1.e_hash e /\ Par1.hash16k md5 (snd w) = Par1.e_h16 e /\
+                       N.of_nat (length (snd w)) = Par1.e_len e) ws.
+Proof. exact Par1Facts.par1_repair_writes. Qed.
+Print Assumptions C19_par1_repair_writes.
